@@ -8,7 +8,7 @@ CONSTANTS
   Lens = {1, 2}
   Vals = {0, 1}
   NameSet = {"-"}
-  MaxDepth = 6
+  MaxDepth = 5
   MaxCols = 1
   Emit = FALSE
 VIEW View
@@ -24,8 +24,5 @@ INVARIANT InvCmap
 INVARIANT InvRefusalJustified
 INVARIANT InvFpReadCurrent
 INVARIANT InvLookupCurrent
-PROPERTY WritesLocal
-PROPERTY PureOps
-PROPERTY FailedChangesNothing
-PROPERTY WriteChangesFp
+ACTION_CONSTRAINT StepProps
 CHECK_DEADLOCK FALSE
